@@ -279,7 +279,7 @@ func check(c Case) (o h.Outcome) {
 		return
 	}
 	if rerr != nil {
-		o.Fail("router-build-error:"+c.Router, "NewRouter fails on a validated document: %v", rerr)
+		o.Fail("router-build-error:"+c.Router+":"+h.SigClean(rerr.Error()), "NewRouter fails on a validated document: %v", rerr)
 		return
 	}
 	var route *routers.Route
@@ -337,6 +337,9 @@ func check(c Case) (o h.Outcome) {
 		// server variables, when returned, carry what the request has at their positions
 		if c.Server == "/api/{ver}/{area}" && strings.HasPrefix(c.Path, "/api/v2/eu") {
 			for k, wantV := range map[string]string{"ver": "v2", "area": "eu"} {
+				if strings.Contains(route.Path, "{"+k+"}") {
+					continue // the matched template has a variable of that name: the one map holds the template's
+				}
 				if v, ok := params[k]; ok && v != wantV {
 					o.Fail("server-variable-binding:"+c.Router, "server variable %q is returned as %q for request path %q under server %q (all returned parameters: %v)", k, v, c.Path, c.Server, params)
 					return
@@ -442,7 +445,7 @@ func check(c Case) (o h.Outcome) {
 
 // ---------------------------------------------------------------------------------------
 
-var tplPool = []string{"/a", "/a/{x}", "/a/b", "/{x}", "/{x}/b", "/a/{x}/b", "/a/{x}/{y}", "/{x}/{y}", "/b/{y}", "/b", "/a/b/c", "/a/{x}/c", "/{x}/b/{y}", "/a/b/{y}", "/a/p-{x}", "/a/p-b", "/a/{x}.json", "/a/b.json", "/a/{x}.{y}", "/{x}-{y}/b", "/a/{w}/d", "/{v}/d/{y}"}
+var tplPool = []string{"/a", "/a/{x}", "/a/b", "/{x}", "/{x}/b", "/a/{x}/b", "/a/{x}/{y}", "/{x}/{y}", "/b/{y}", "/b", "/a/b/c", "/a/{x}/c", "/{x}/b/{y}", "/a/b/{y}", "/a/p-{x}", "/a/p-b", "/a/{x}.json", "/a/b.json", "/a/{x}.{y}", "/{x}-{y}/b", "/a/{w}/d", "/{v}/d/{y}", "/c/{ver}", "/c/{env}/k"} // the last two: a path variable named like a server variable is another variable
 var methodSets = [][]string{{"GET"}, {"POST"}, {"GET", "POST"}, {"GET", "PUT", "DELETE"}}
 var servers = []string{"none", "/v1", "/", "/V2", "/b%20c", "abs:https+http", "/api/{ver}", "http://h.example/base", "{scheme}://h.example/base", "http://{env}.example/base", "multi:/v1,/v10", "multi:/v10,/v1", "first:/one,/two", "/api/{ver}/{area}"}
 var values = []string{"1", "abc", "a.b", "x-y_z~", "b", "a", "Xy9", "B"}
